@@ -136,6 +136,13 @@ var c16Fixed = []string{
 	"n := 7\nx := \"7\"\nb := true\nt := \"true\"\nz := 0\ne := \"0\"\nf := 1.5\ng := \"1.5\"\n",
 	"x := \"7\"\nn := 7\nt := \"true\"\nb := true\n",
 	"k := \"\"\nn := 0\nfor c := range \"ab\"\n    k = k + c\nend\nx := \"0\"\ny := \"1\"\nfor e := range [5 6]\n    k = k + \"|\"\n    n = n + e\nend\nz := \"0\"\n",
+	// concatenation with an empty operand is still a fresh array
+	"a := [1 2]\nb := a + []\nb[0] = 9\nc := [] + a\nc[1] = 8\nz := [0]\ne := z[1:]\nd := e + a\nd[0] = 7\nacc := z[1:]\nrow := [1 2]\nfor i := range 2\n    acc = acc + row\n    acc[0] = acc[0] + 10 + i\nend\n",
+	// a block that declares nothing around a block that declares locals: the inner locals need slots of their own
+	"total := 0\nfor i := range 3\n    if i >= 0\n        bonus := 10\n        total = total + i + bonus\n    end\nend\n",
+	"r := 0\nwhile r < 1\n    if true\n        a := 5\n        r = 1 + a\n    end\nend\n",
+	"t := 0\nfor range 2\n    if true\n        w := \"a\"\n        w = w + \"b\"\n        if true\n            v := 3\n            t = t + 1 + v\n        end\n    end\nend\n",
+	"s := \"\"\nfor c := range \"ab\"\n    while true\n        if true\n            k := c + \"!\"\n            s = s + k\n        end\n        break\n    end\nend\n",
 	// locals declared after an inner block ended; many locals on several levels
 	"t := 0\nif true\n    a := 1\n    if true\n        b := 2\n        c := 3\n        t = t + b + c\n    end\n    d := 4\n    e := 5\n    f := 6\n    t = t + a + d + e + f\nend\n",
 	"func f:num p:num\n    a := p + 1\n    if a > 0\n        b := a * 2\n        if b > 0\n            c := b * 2\n            a = a + c\n        end\n        d := a + b\n        e := d + 1\n        a = e\n    end\n    g := a + 1\n    h := g + 1\n    return h\nend\nr := f 1\nr = r + (f 2)\n",
